@@ -180,6 +180,28 @@ disc_seq!(c13_t_disc_btreeset_2_2, BTreeSet<u8>, vec_u8::<2>().into_iter().colle
 disc_seq!(c13_t_disc_btreemap_1_2, BTreeMap<u8, u8>, [(kani::any(), kani::any())].into_iter().collect(), [(kani::any(), kani::any()), (kani::any(), kani::any())].into_iter().collect());
 disc_seq!(c13_t_disc_pathbuf_1_2, std::path::PathBuf, std::path::PathBuf::from(ascii::<1>()), std::path::PathBuf::from(ascii::<2>()));
 
+// the length prefix itself, for SYMBOLIC lengths: the encoding must be injective and prefix-free,
+// otherwise "prefix ++ content" of one value can be re-read as a longer prefix of another
+// (container harnesses above only reach lengths 0..3)
+h!(c13_q_length_prefix_prefix_free, 42, {
+    let (l1, l2): (usize, usize) = (kani::any(), kani::any());
+    kani::assume(l1 != l2);
+    let (mut a, mut b) = (Rec::new(), Rec::new());
+    a.write_length_prefix(l1);
+    b.write_length_prefix(l2);
+    assert!(!a.same(&b), "different lengths feed different prefixes");
+    // neither prefix encoding is a proper prefix of the other
+    let (short, long) = if a.len <= b.len { (&a, &b) } else { (&b, &a) };
+    let mut is_prefix = true;
+    let mut i = 0;
+    while i < CAP {
+        if i < short.len && short.buf[i] != long.buf[i] { is_prefix = false; }
+        i += 1;
+    }
+    assert!(!is_prefix, "the length-prefix encoding is prefix-free");
+    kani::cover!(l1 == 255 && l2 > 255, "lengths around the one-byte boundary");
+    kani::cover!(l1 > u32::MAX as usize, "length above 32 bits");
+});
 // derived types
 use crate::types::*;
 disc!(c13_q_disc_derive_tuple_struct, Tup, Tup(kani::any(), kani::any()));
